@@ -47,14 +47,14 @@ Theorem C31_nonatomic_double_failure_refuted :
   exists fs, count_true fs = 2%nat /\ final_of (upgrade false fs) = CNone /\ result_of (upgrade false fs) = RLost.
 Proof. exact nonatomic_double_failure_refuted. Qed.
 
-(* F-C31b: the contingency path removes the intact old config on atomic backends as well *)
-Theorem C31_atomic_double_failure_refuted :
-  exists fs, count_true fs = 2%nat /\ final_of (upgrade true fs) = CNone /\ result_of (upgrade true fs) = RLost.
-Proof. exact atomic_double_failure_refuted. Qed.
-
-Theorem C31_atomic_failure_then_crash_refuted :
-  exists fs p, count_true fs = 1%nat /\ prefix p (trace_of (upgrade true fs)) /\ run C1 p = CNone.
-Proof. exact atomic_failure_then_crash_refuted. Qed.
+(* atomic-replace backends: every fault pattern, every prefix: old or new config present; never Lost;
+   at most the one Save of the new config (formerly refuted: F-C31b, fixed in /repo 70c3c2bee) *)
+Theorem C31_atomic_all_faults_safe : forall fs,
+  (forall p, prefix p (trace_of (upgrade true fs)) -> present (run C1 p)) /\
+  present (final_of (upgrade true fs)) /\
+  result_of (upgrade true fs) <> RLost /\
+  (trace_of (upgrade true fs) = [] \/ trace_of (upgrade true fs) = [CSave2]).
+Proof. exact atomic_all_faults_safe. Qed.
 
 Theorem C31_oracle_sound : forall c,
   check_C31 c = true ->
@@ -69,6 +69,5 @@ Print Assumptions C31_single_failure_safe.
 Print Assumptions C31_single_failure_result.
 Print Assumptions C31_nonatomic_crash_refuted.
 Print Assumptions C31_nonatomic_double_failure_refuted.
-Print Assumptions C31_atomic_double_failure_refuted.
-Print Assumptions C31_atomic_failure_then_crash_refuted.
+Print Assumptions C31_atomic_all_faults_safe.
 Print Assumptions C31_oracle_sound.
